@@ -4,6 +4,8 @@
   result line per operation.
 -/
 import Minicbor.Drv.Core
+import Minicbor.Drv.Float
+import Minicbor.Drv.Parse
 import Minicbor.Drv.Derive
 import Minicbor.Drv.Typed
 import Minicbor.Drv.Token
@@ -17,7 +19,11 @@ def dispatch (line : String) : String :=
   match (line.trimAscii.toString.splitOn " ").filter (fun w => !w.startsWith "#") with
   | "enc" :: w => encOp w
   | "dec" :: w => decOp w
+  | "fblk" :: w => fblkOp w
   | "encspec" :: w => encSpec w
+  | "wf" :: w => wfOp w
+  | "seq" :: w => seqOp w
+  | "intconv" :: w => intconvOp w
   | "tenc" :: w => Typed.tencOp w
   | "tdec" :: w => Typed.tdecOp w
   | "tokenc" :: w => Tok.tokencOp w
